@@ -18,6 +18,7 @@
 //   vh::make_explicit_projector_pair ProjectorByBinPairUsingProjMatrixByBin around a fresh ExplicitProjMatrix
 //   vh::TinySystem / make_tiny_system  user-defined tiny scanner, (TOF) ProjDataInfo, image template
 //   vh::xm_all_bins / xm_voxels      canonical enumeration orders of bins and voxels for logging
+//   vh::xm_system_json               the "System" ndjson line (bins, rows, columns of P) read by spec/PoissonLL.tla
 //
 // How the subclass behaves (measured facts, see DESIGN.md C05 probe notes):
 //  * set_up calls ProjMatrixByBin::set_up (mandatory), installs TrivialDataSymmetriesForBins (every
@@ -239,6 +240,46 @@ inline int xm_voxel_index(const stir::DiscretisedDensity<3, float>& im, int z, i
         if (zz == z && yy == y && xx == x) return i;
       }
   return 0;
+}
+
+//! The "System" ndjson line that spec/PoissonLL.tla (operator SystemOk, record `sys`) understands: the bins
+//! in xm_all_bins order, row b of P as [[voxel, weight], ...] (voxel = 1-based xm_voxels index, weights must be
+//! integers) and, redundantly, column v of P as [[bin, weight], ...] (1-based bin index) so that TLC can
+//! back-project along columns; TLC cross-checks rows against columns.  Specifications that EXTEND PoissonLL
+//! (C07, C08) can log their system with this call.
+inline Json xm_system_json(long id, const TinySystem& s, const ExplicitMatrixData& data) {
+  const stir::ProjDataInfo& pdi = *s.proj_data_info;
+  const std::vector<stir::Bin> bins = xm_all_bins(pdi);
+  const int nv = (int)xm_voxels(*s.image).size();
+  std::vector<std::vector<int>> bl;
+  std::vector<std::vector<std::pair<int, long>>> rows(bins.size()), cols(nv);
+  for (std::size_t b = 0; b < bins.size(); ++b) {
+    const stir::Bin& bin = bins[b];
+    bl.push_back({ bin.segment_num(), bin.view_num(), bin.axial_pos_num(), bin.tangential_pos_num(), bin.timing_pos_num() });
+    for (const XmElem& e : data.row(bin)) {
+      const int v = xm_voxel_index(*s.image, e.z, e.y, e.x);
+      rows[b].push_back({ v, std::lround(e.w) });
+      if (v >= 1) cols[v - 1].push_back({ (int)b + 1, std::lround(e.w) });
+    }
+  }
+  auto ser = [](const std::vector<std::vector<std::pair<int, long>>>& vv) {
+    std::string o = "[";
+    for (std::size_t i = 0; i < vv.size(); ++i) {
+      if (i) o += ',';
+      o += '[';
+      for (std::size_t j = 0; j < vv[i].size(); ++j) {
+        if (j) o += ',';
+        o += '[' + std::to_string(vv[i][j].first) + ',' + std::to_string(vv[i][j].second) + ']';
+      }
+      o += ']';
+    }
+    return o + "]";
+  };
+  Json j("System");
+  j.num("id", id).boolean("tof", pdi.is_tof_data()).num("nv", nv).num("numViews", pdi.get_num_views()).num("minView", pdi.get_min_view_num())
+      .num("minAx0", pdi.get_min_axial_pos_num(0)).num("maxAx0", pdi.get_max_axial_pos_num(0)).num("maxSegData", pdi.get_max_segment_num())
+      .arr2("bins", bl).raw("rows", ser(rows)).raw("cols", ser(cols));
+  return j;
 }
 
 } // namespace vh
